@@ -79,9 +79,10 @@ def run_e3(tier, seed):
             if r["built"]:
                 break
             # which generated modules (or uses of their interface) do not compile?
-            bad = set(int(m) for m in re.findall(r"--> src/m(\d+)\.rs", r["build_output"]))
-            drv = set(int(m) for m in re.findall(r"--> src/d(\d+)\.rs", r["build_output"])) - bad
+            # errors only (warnings of other modules also carry `--> src/m<k>.rs` lines)
             errs = re.findall(r"(error(?:\[E\d+\])?: [^\n]+)\n\s+--> src/(m|d)(\d+)\.rs", r["build_output"])
+            bad = set(int(k) for _, kind, k in errs if kind == "m")
+            drv = set(int(k) for _, kind, k in errs if kind == "d") - bad
             first = {}
             for msg, kind, k in errs:
                 first.setdefault(int(k), msg)
